@@ -760,7 +760,9 @@ pub fn oracle(req: &Value) -> Vec<(String, String)> {
                 if c1 != c2.reverse() {
                     fails.push(("C19".into(), format!("cmp not antisymmetric {} {}", x, y)));
                 }
-                if (c1 == std::cmp::Ordering::Equal) != (x == y) {
+                // (consistency with equality is claimed for identifiers the system produces; a malformed text such
+                // as `1-a_b` - a creation revision with a tail - parses to a revision that prints without the tail)
+                if is_system_rev(a[1].as_str().unwrap()) && is_system_rev(a[2].as_str().unwrap()) && (c1 == std::cmp::Ordering::Equal) != (x == y) {
                     fails.push(("C19".into(), format!("cmp inconsistent with eq {} {}", x, y)));
                 }
                 if !x.is_resolved() && !y.is_resolved() && x.index() != y.index() && (x.index() < y.index()) != (c1 == std::cmp::Ordering::Less) {
@@ -945,7 +947,8 @@ pub fn oracle(req: &Value) -> Vec<(String, String)> {
                 let st = SimStore::new();
                 st.put_raw(&(name.clone() + ".pack"), bytes.clone());
                 let mut ds = DataStorage::new(st.dyn_adapter());
-                if ds.reload().is_ok() {
+                // (a pack only ever holds objects: junk that parses as an array of something else is not a pack)
+                if objs.iter().all(|o| o.is_object()) && ds.reload().is_ok() {
                     for o in objs {
                         let d = digest_string(&js(&o));
                         match ds.read_raw_value(&d) {
